@@ -125,7 +125,8 @@ class MagicMemoryCL( Component ):
                 req.type_ == MemMsgType.AMO_SWAP  or \
                 req.type_ == MemMsgType.AMO_XOR:
             resp = resp_classes[i]( req.type_, req.opaque, 0, req.len,
-               s.mem.amo( req.type_, req.addr, len_, req.data ) )
+               zext( s.mem.amo( req.type_, req.addr, len_, req.data ),
+                     req_classes[i].data_nbits ) )
 
           # INV
           elif  req.type_ == MemMsgType.INV:
